@@ -149,6 +149,35 @@ static jwt_value_error_t jwt_set_bool(json_t *which, jwt_value_t *jval)
 	return jval->error;
 }
 
+/* How deep jansson's parser has to go for the text of this value: every
+ * value counts as one level, a container adds its deepest member. */
+static size_t jwt_json_depth(const json_t *json)
+{
+	size_t depth = 0, d, i;
+	const char *key;
+	json_t *val;
+
+	if (json_is_object(json)) {
+		json_object_foreach((json_t *)json, key, val) {
+			d = jwt_json_depth(val);
+			if (d > depth)
+				depth = d;
+		}
+		return depth + 1;
+	}
+
+	if (json_is_array(json)) {
+		json_array_foreach((json_t *)json, i, val) {
+			d = jwt_json_depth(val);
+			if (d > depth)
+				depth = d;
+		}
+		return depth + 1;
+	}
+
+	return 1;
+}
+
 static jwt_value_error_t jwt_set_json(json_t *which, jwt_value_t *jval)
 {
 	size_t flags = JSON_REJECT_DUPLICATES;
@@ -188,6 +217,11 @@ static jwt_value_error_t jwt_set_json(json_t *which, jwt_value_t *jval)
 
 		if (ret)
 			jval->error = JWT_VALUE_ERR_INVALID; // LCOV_EXCL_LINE
+	} else if (jwt_json_depth(json_val) + 1 > JSON_PARSER_MAX_DEPTH) {
+		/* As a member it sits one level deeper than it was parsed at:
+		 * nobody could parse the token back. */
+		json_decrefp(&json_val);
+		jval->error = JWT_VALUE_ERR_INVALID;
 	} else {
 		/* Add object at name */
 		if (!jwt_obj_check(which, jval)) {
